@@ -226,6 +226,8 @@ def _veq(a, b):
             return And(sym.is_kind(y, sym.K_DICT), sym.as_bool(sym.ref_len(sym.Val.r(y.t)) == 0))
     if sym.liftable(a) and sym.liftable(b):
         return eq(a, b)
+    if isinstance(a, (list, tuple)) and isinstance(b, (list, tuple)) and type(a) is type(b):
+        return len(a) == len(b) and And(*[_veq(x, y) for x, y in zip(a, b)])
     return a is b
 
 
